@@ -46,6 +46,11 @@ impl LinkNameMatcher {
 
 impl Matcher for LinkNameMatcher {
     fn matches(&self, file_info: &WalkEntry, _: &mut MatcherIO) -> bool {
+        // A link that the follow mode (-L, -H on a starting point, -follow) resolves is
+        // not a symbolic link as far as -lname is concerned; only broken links still are.
+        if !file_info.file_type().is_symlink() {
+            return false;
+        }
         if let Some(target) = read_link_target(file_info) {
             self.pattern.matches(&target.to_string_lossy())
         } else {
